@@ -20,6 +20,54 @@ CLAIMED = {
         ref='§4 C13'),
 }
 
+CLAIMED.update({
+    'C07': dict(
+        text='Theorems: the early-return chain of considerPEL equals the documented rule for every severity byte, action-flag word, '
+             'switch combination and -S list (any order/duplicates); look-ups without options consider every PEL; default set, '
+             '--every-pel, monotonicity without --only, group = high hex digit. Pins: the three flag masks, two severities, seven '
+             'group digits. Correspondence: real considerPEL on all 256 severities per (flags, config) row; thorough tier is '
+             'exhaustive over 64 switch sets x 128 group subsets x 24 flag words; argparse glue through real `peltool -n` runs.',
+        note=BASE + 'argparse/Config glue is only exercised, not modelled.',
+        technique='Lean 4 proof (boolean case analysis after abstracting the derived predicates) + exhaustive differential correspondence',
+        ref='§4 C07'),
+    'C14': dict(
+        text='Theorems (all tables, all entry sequences, all byte strings via decompose): the decoder loop outputs the heading and one '
+             'line per non-zero 8-byte entry in order, trailing partial entry ignored; first-match rule (as is / reported flag cleared); '
+             'parameters are the designated PTE bytes; timestamp H:MM:SS / dashes; sequence number and PTE shown parse back. Pins: entry '
+             'size and the four masks. Correspondence: both shipped tables (independent header reader vs PTETable; entries hitting every '
+             'pattern, reported variants, random) and synthetic tables written to temporary header files.',
+        note=BASE + 'The % operator is modelled by pyFmt for the subset used by the shipped tables and is opaque in the theorems; the header-file regex is tied by correspondence only.',
+        technique='Lean 4 proof (induction over entries, loop = declarative spec) + differential correspondence',
+        ref='§4 C14'),
+    'C15': dict(
+        text='Theorems: no-header fallback is a lossless dump; header fields come from the stated byte positions; a well-formed entry is read '
+             'back exactly; an entry is rejected iff truncated/oversized/trailer mismatch; the loop shows exactly the entries starting before '
+             'the declared size and stops at the first unreadable one; string choice = first exact else LAST partial; rendering rule '
+             '(warning, dump iff binary/none/partial); end-to-end round trip. Pins: SIZE, FIXED_SIZE, MAX_DATA_LEN, TYPE_FIELDBIN, MAX_ARGS. '
+             'Correspondence: shipped and synthetic string files, generated buffers incl. corrupted entries, truncation at every offset.',
+        note=BASE + 'The % operator is modelled by pyFmt and opaque in the theorems; the string-file regex and ascii/ignore decoding are tied by correspondence only.',
+        technique='Lean 4 proof (well-founded loop = declarative prefix, accumulator invariant for the string choice) + differential correspondence',
+        ref='§4 C15'),
+    'C16': dict(
+        text='Theorems: the dump part is the lossless hex dump of all bytes (parses back); the field loop with its break equals the '
+             'declarative rule (offset = sum of preceding widths, stop at first field that does not fit, listed iff non-zero, zero-padded '
+             'to twice the width); shown value parses back. Correspondence: both shipped field tables (independent reader) and synthetic ones, '
+             'every length from 0 past the full record.',
+        note=BASE + 'The header-file regex is tied by correspondence only.',
+        technique='Lean 4 proof (induction over the field list with an offset invariant) + differential correspondence',
+        ref='§4 C16'),
+    'C17': dict(
+        text='Theorems: findSub returns the least occurrence; offsets sorted and in range; regions partition the input (ilog ++ traces = data); '
+             'each trace region starts at a recognised header; no header pattern occurs before the first boundary; composition = stand-alone '
+             'decoders under headings; empty input; decoding a dump file in either text format (padded/truncated last line, noise lines) equals '
+             'decoding the raw bytes, with the template auto-detection falling through for pre-BMC text. Pins: start bytes, six names, divider, '
+             'two formats. Correspondence: generated dumps vs real parse_dump_data / parse_dump_file / python -m io_drawer.dump; the property is '
+             'also checked directly with the real stand-alone decoders on regions computed from the statement.',
+        note=BASE + '"Recognised header" = first occurrence of each of the six 8-byte patterns.',
+        technique='Lean 4 proof (least-index search, sorted-offset slicing lemma, reuse of the C13 round trips) + differential correspondence',
+        ref='§4 C17'),
+})
+
 PENDING = {
 }
 
